@@ -862,13 +862,25 @@ pub fn gen_frame_stream(t: &mut Tape, o: &FrameOpts) -> (Stream, Vec<String>) {
         }
         let mut p = Packet::new(r);
         if o.word_payload {
-            let nw = match t.weighted(&[2, 6, 2]) {
+            let nw = match t.weighted(&[8, 24, 8, 1]) {
                 0 => 0,
                 1 => 1 + t.below(8),
-                _ => 1 + t.below(60),
+                2 => 1 + t.below(60),
+                // a payload beyond 8 KiB (the reader accepts up to 10 000 bytes): few distinct words, repeated
+                _ => {
+                    if p.rdh.data_format() != 0 { 820 + t.below(170) } else { 513 + t.below(107) }
+                }
             };
-            for _ in 0..nw {
-                p.words.push(gen_any_word(t));
+            if nw > 60 {
+                let base: Vec<Word> = (0..3).map(|_| gen_any_word(t)).collect();
+                for k in 0..nw {
+                    p.words.push(base[k % 3]);
+                }
+                labels.push("payload>8192".into());
+            } else {
+                for _ in 0..nw {
+                    p.words.push(gen_any_word(t));
+                }
             }
             p.frame_of_word = vec![usize::MAX; p.words.len()];
             if p.rdh.data_format() != 0 {
